@@ -183,6 +183,7 @@ def invertNorm : CExpr τ → Option (CExpr τ)
   | .tracked x op v => some (.tracked x (match op with | 0 => 4 | 4 => 0 | 5 => 1 | 1 => 5 | 2 => 3 | _ => 2) v)
   | .resLevel r op v => some (.resLevel r (match op with | 0 => 4 | 4 => 0 | 5 => 1 | 1 => 5 | 2 => 3 | _ => 2) v)
   | .tracked2 x op y => some (.tracked2 x (match op with | 0 => 4 | 4 => 0 | 5 => 1 | 1 => 5 | 2 => 3 | _ => 2) y)
+  | .ref _ => none
 def invertNorms : List (CExpr τ) → Option (List (CExpr τ))
   | [] => some []
   | c :: cs => (invertNorm c).bind (fun c' => (invertNorms cs).map (c' :: ·))
@@ -221,6 +222,7 @@ def buildNorm (w : World τ) : CExpr τ → Option (World τ × CondId)
     some (w.newCond (.moment t tr))
   | .eternity => some (w.newCond .eternity)
   | .instant => some (w.newCond .instant)
+  | .ref n => (lookup w.condNames n).map (fun c => (w, c))
   | .done t => (lookup w.taskNames t).map (fun tid => (w, (w.task tid).done))
   | .all cs => (buildNorms w cs).map (fun (w, ids) => w.newCond (.all ids))
   | .any cs => (buildNorms w cs).map (fun (w, ids) => w.newCond (.any ids))
@@ -263,6 +265,9 @@ def evalSpec (w : World τ) : CExpr τ → Bool
   | .tracked2 x op y => cmpOp op (w.tracked.getD x default).value (w.tracked.getD y default).value
   | .resLevel r op v => match lookup w.resNames r with
     | some rid => vecCmp op (w.res.getD rid default).levels v
+    | none => false
+  | .ref n => match lookup w.condNames n with
+    | some c => w.eval c
     | none => false
 def evalSpecAll (w : World τ) : List (CExpr τ) → Bool
   | [] => true
